@@ -29,6 +29,7 @@ import gencode
 import match_counter
 import objtypes
 from objtypes import strict_equal
+import records
 from relation import SingleRowsIdentityRelation
 import sandbox
 import schema
@@ -893,7 +894,12 @@ class Engine(object):
           # Convert the value, and if needed, set, and include into the returned action.
           value = col.convert(value)
           previous = col.raw_get(row_id)
-          if not strict_equal(value, previous):
+          # A Record or RecordSet remembers the relation it was obtained through; an equal one
+          # obtained through a different relation (e.g. after its column got rebuilt) needs to be
+          # saved, and dependents recomputed, or they keep following the defunct relation.
+          if not strict_equal(value, previous) or (
+              isinstance(value, (records.Record, records.RecordSet)) and
+              getattr(previous, '_source_relation', None) is not value._source_relation):
             if not changes:
               changes = self._changes_map.setdefault(node, [])
             changes.append((row_id, previous, value))
